@@ -48,6 +48,7 @@ ElemTypes == {N} \cup {O(c) : c \in Prof.classes}
 \* fewest tokens that can complete a hole (used only to prune hopeless derivations)
 MinTok(h) ==
   CASE h.ty.h \in {"num", "row", "item", "iconst", "key", "ev"} -> 1
+    [] h.ty.h = "root" -> 3
     [] h.ty.h = "bool" -> IF Prof.boolConst THEN 1 ELSE 3
     [] h.ty.h = "obj" -> IF VarsOf(h.env, h.ty) # {} THEN 1 ELSE 4
     [] h.ty.h \in {"seq", "vec"} -> IF VarsOf(h.env, S(h.ty.e)) # {} THEN 1 ELSE 2
@@ -83,6 +84,7 @@ NumProds(env) ==
      {P(Tok("Const", c[1], "", c[2], c[3]), <<>>) : c \in Prof.consts}
   \cup VarProds(N, env)
   \cup NumMeth(env)
+  \cup (IF Prof.boolAsNum THEN BoolMeth(env) ELSE {})
   \cup {P(Tok("Bin", op, "", 0, 1), <<Hole(N, env), Hole(N, env)>>) : op \in Prof.binops}
   \cup {P(Tok("Un", op, "", 0, 1), <<Hole(N, env)>>) : op \in Prof.unops}
   \cup (IF Prof.ifexp THEN {P(Tok("If", "", "", 0, 1), <<Hole(B, env), Hole(N, env), Hole(N, env)>>)} ELSE {})
@@ -175,11 +177,22 @@ Prods(h) ==
     [] h.ty.h = "top"    -> TopProds(h.ty.e)
     [] h.ty.h = "evseq"  -> EvSeqProds
     [] h.ty.h = "key"    -> {P(Tok("Str", h.ty.c, "", 0, 1), <<>>)}
+    [] h.ty.h = "root"   -> TopProds(ROW) \cup
+                            {P(Tok("Root", "mytree", "myfile", n, 1),
+                               <<Hole(TOP(ROW), <<>>)>> \o [i \in 1..n |-> Hole(KEY(<<"ca", "cb", "cc">>[i]), <<>>)]) : n \in Prof.rootnames}
     [] h.ty.h = "iconst" -> {P(Tok("Const", "int", "", i, 1), <<>>) : i \in Prof.iconsts}
 
 ----------------------------------------------------------------------------
 (* the machine *)
-GInit == toks = <<>> /\ agenda = <<Hole(TOP(ROW), <<>>)>>
+\* where derivations start: the whole query, or (per-object profiles) the body of
+\*   ds.SelectMany(lambda e: e.<A>("bk1")).Select(lambda e: <hole>)
+StartToks == IF Prof.start = "perobj"
+             THEN <<Tok("Select", "e", "", 0, 1), Tok("SelectMany", "e", "", 0, 1), Tok("DS", "", "", 0, 1),
+                    Tok("Coll", "A", "bk1", 0, 1), Tok("Var", "e", "", 0, 1)>>
+             ELSE <<>>
+StartAgenda == IF Prof.start = "perobj" THEN <<Hole(ROW, <<[x |-> "e", ty |-> O("A")]>>)>>
+               ELSE IF Prof.rootnames = {} THEN <<Hole(TOP(ROW), <<>>)>> ELSE <<Hole([h |-> "root"], <<>>)>>
+GInit == toks = StartToks /\ agenda = StartAgenda
 
 Fill(p) == /\ toks' = Append(toks, p.tok)
            /\ agenda' = p.holes \o Tail(agenda)
